@@ -390,7 +390,7 @@ pub fn get_end_select_query(
     q.push_str(&filters);
 
     if entity.is_aggregate {
-        let group_by = get_group_by(&entity.fields, t);
+        let group_by = get_group_by(&entity.fields, prepared_query, t);
         q.push_str(&group_by);
         if !entity.params.aggregate_filters.is_empty()
             | !entity.params.before.is_empty()
@@ -422,7 +422,7 @@ pub fn get_end_select_query(
     if !entity.params.order_by.is_empty() || entity.params.fulltext_search.is_some() {
         q.push('\n');
         tab(&mut q, t);
-        let order_by = get_order(&entity.params);
+        let order_by = get_order(&entity.params, prepared_query);
         q.push_str(&order_by);
     }
     q
@@ -446,6 +446,25 @@ fn float_literal(f: &f64) -> String {
 //the SQL value of the field: aggregate functions must compare numbers, not their JSON text
 fn js_value(field: &str) -> String {
     format!("_json->>'$.{}'", field)
+}
+
+//the SQL value of a field used outside of the selection (ordering, paging, grouping, aggregates):
+//like in the selection and the filters, a row written before the field existed reads as the default value
+fn js_value_or_default(
+    field: &crate::database::query_language::data_model_parser::Field,
+    prepared_query: &mut SingleQuery,
+) -> String {
+    let value = js_value(&field.short_name);
+    let default = match &field.default_value {
+        Some(ParamValue::Boolean(b)) => (b.to_owned() as i32).to_string(),
+        Some(ParamValue::Integer(i)) => i.to_string(),
+        Some(ParamValue::Float(f)) => float_literal(&f.to_owned()),
+        Some(ParamValue::String(s)) | Some(ParamValue::Binary(s)) => {
+            prepared_query.add_param(String::from(s), true)
+        }
+        Some(ParamValue::Null) | None => return value,
+    };
+    format!("Ifnull({},{})", value, default)
 }
 
 fn get_fields(
@@ -602,7 +621,8 @@ fn get_fields(
                         let agg_field = if field.field.is_system {
                             field.field.name.clone()
                         } else {
-                            js_value(f)
+                            let _ = f;
+                            js_value_or_default(&field.field, prepared_query)
                         };
                         format!("'{}', avg({}) ", &field.name(), agg_field)
                     }
@@ -611,7 +631,8 @@ fn get_fields(
                         let agg_field = if field.field.is_system {
                             field.field.name.clone()
                         } else {
-                            js_value(f)
+                            let _ = f;
+                            js_value_or_default(&field.field, prepared_query)
                         };
                         format!("'{}', max({}) ", &field.name(), agg_field)
                     }
@@ -619,7 +640,8 @@ fn get_fields(
                         let agg_field = if field.field.is_system {
                             field.field.name.clone()
                         } else {
-                            js_value(f)
+                            let _ = f;
+                            js_value_or_default(&field.field, prepared_query)
                         };
                         format!("'{}', min({}) ", &field.name(), agg_field)
                     }
@@ -627,7 +649,8 @@ fn get_fields(
                         let agg_field = if field.field.is_system {
                             field.field.name.clone()
                         } else {
-                            js_value(f)
+                            let _ = f;
+                            js_value_or_default(&field.field, prepared_query)
                         };
                         format!("'{}', total({}) ", &field.name(), agg_field)
                     }
@@ -887,7 +910,7 @@ fn get_having_filters(params: &EntityParams, prepared_query: &mut SingleQuery, t
     q
 }
 
-pub fn get_order(params: &EntityParams) -> String {
+pub fn get_order(params: &EntityParams, prepared_query: &mut SingleQuery) -> String {
     let mut query = String::new();
     if params.fulltext_search.is_some() {
         query.push_str("ORDER BY rank");
@@ -906,8 +929,9 @@ pub fn get_order(params: &EntityParams) -> String {
                 query.push_str(&format!("{} {} ", &ord.name, direction));
             } else {
                 query.push_str(&format!(
-                    "_json->>'$.{}' {} ",
-                    &ord.field.short_name, direction
+                    "{} {} ",
+                    js_value_or_default(&ord.field, prepared_query),
+                    direction
                 ));
             }
 
@@ -1012,8 +1036,9 @@ pub fn get_paging(params: &EntityParams, prepared_query: &mut SingleQuery) -> St
                 q.push_str(&format!("{} = {}", &ord.name, value));
             } else {
                 q.push_str(&format!(
-                    "_json->>'$.{}' = {}",
-                    &ord.field.short_name, value
+                    "{} = {}",
+                    js_value_or_default(&ord.field, prepared_query),
+                    value
                 ));
             }
 
@@ -1063,8 +1088,10 @@ pub fn get_paging(params: &EntityParams, prepared_query: &mut SingleQuery) -> St
             q.push_str(&format!("{} {} {}", &ord.name, ope, value));
         } else {
             q.push_str(&format!(
-                "_json->>'$.{}' {} {}",
-                &ord.field.short_name, ope, value
+                "{} {} {}",
+                js_value_or_default(&ord.field, prepared_query),
+                ope,
+                value
             ));
         }
 
@@ -1118,14 +1145,14 @@ pub fn get_limit(params: &EntityParams, prepared_query: &mut SingleQuery) -> Str
     query
 }
 
-fn get_group_by(fields: &Vec<QueryField>, t: usize) -> String {
+fn get_group_by(fields: &Vec<QueryField>, prepared_query: &mut SingleQuery, t: usize) -> String {
     let mut q = String::new();
 
     let mut v = Vec::new();
 
     for field in fields {
         if let QueryFieldType::Scalar = &field.field_type {
-            v.push(field.field.short_name.clone())
+            v.push(js_value_or_default(&field.field, prepared_query))
         }
     }
     if !v.is_empty() {
@@ -1136,7 +1163,7 @@ fn get_group_by(fields: &Vec<QueryField>, t: usize) -> String {
 
     let it = &mut v.iter().peekable();
     while let Some(field) = it.next() {
-        q.push_str(&format!("_json->>'$.{}'", field));
+        q.push_str(field);
         if it.peek().is_some() {
             q.push(',');
         }
